@@ -231,6 +231,24 @@ impl Flounder {
     }
 }
 
+/// Verification hooks: drive the real command handler in-process and read back
+/// the state it produced.
+#[cfg(flounder_verif)]
+#[allow(dead_code)]
+impl Flounder {
+    pub fn verif_handle_command(&mut self, command: &str) {
+        self.handle_command(command);
+    }
+
+    pub fn verif_board(&self) -> &Board {
+        &self.board
+    }
+
+    pub fn verif_searcher(&mut self) -> &mut Searcher {
+        &mut self.searcher
+    }
+}
+
 impl Default for Flounder {
     fn default() -> Self {
         Self::new()
